@@ -1245,6 +1245,11 @@ func (sc *serverConn) handleFrame(strm *Stream, fr *FrameHeader) error {
 		strm.recvBody += len(data)
 
 		if sc.maxRequestBodySize > 0 && strm.recvBody > sc.maxRequestBodySize {
+			// The frame is thrown away, but the peer has spent connection
+			// window on it. Not handing that back leaks a frame's worth of
+			// window per oversized request until nobody can upload any more.
+			sc.consumeConnWindow(fr.Len())
+
 			return NewResetStreamError(EnhanceYourCalm, "request body is too large")
 		}
 
